@@ -35,6 +35,7 @@ EXPLANATION += (" R-C13-5: the index cache gives every level its own range of in
 EXPLANATION += (" R-C13-5 also requires every path of a code helper to look the keys up in the level's key table (no positional shortcut). R-C13-6: the frame-to-frame path returns fresh objects: its return summary (effect analysis) contains no alias or view of an operand.")
 EXPLANATION += (" R-C13-8: array data is attached to the object's index positionally; pd.Series(<freshly built Series>, index=...) re-keys by label and is a violation (built-in positive example).")
 EXPLANATION += (" R-C13-7: the object is aligned directly with the caller's parameter only where an isinstance test excludes the combination DataFrame object / Series parameter (which is otherwise wrapped into a one-column frame).")
+EXPLANATION += (' R-C13-9 (shared with R-C14-11): after `a, b = x.broadcast(y)` neither result is re-ordered on its own (sort_index, sort_values, sample, reindex, stepped slice) - the consumers combine the two row by row; built-in example.')
 ASSUMPTIONS = [
     "pandas DataFrame.align(Series, axis=0) may return the frame with its previous index when the joined index requires no row "
     "movement on the frame side (behaviour of the installed pandas; the repository wraps the series for that reason)",
@@ -295,6 +296,7 @@ def run(ctx):
     ctx.attempt(lambda c: _r6(c, eff))
     ctx.attempt(_r7)
     ctx.attempt(_r8)
+    ctx.attempt(_r9)
 
 
 def _kind_tests(test):
@@ -369,6 +371,76 @@ def _relabelled_series(fn_node):
                     not any(k_.arg == "index" for k_ in a0.keywords):
                 out.append((c, a0))
     return out
+
+
+ROW_REORDER = ("sort_index", "sort_values", "sample", "reindex", "reindex_like", "sortlevel", "take", "drop_duplicates")
+
+
+def unpaired_reorders(fn_node):
+    """After `a, b = <x>.broadcast(<y>)` the two results have the same index, row by row, and are combined by position
+    (`.values`, arithmetic on aligned frames, zipped level values).  A statement that re-orders ONE of them on its own
+    (`a = a.sort_index()`, `b = b.sample(...)`, `a = a.iloc[::-1]`) breaks that pairing unless the other one gets the same
+    treatment.  -> [(statement, name, operation)]"""
+    pairs = []
+    for st in ast.walk(fn_node):
+        if isinstance(st, ast.Assign) and len(st.targets) == 1 and isinstance(st.targets[0], ast.Tuple) and \
+                len(st.targets[0].elts) == 2 and all(isinstance(t, ast.Name) for t in st.targets[0].elts) and \
+                isinstance(st.value, ast.Call) and isinstance(st.value.func, ast.Attribute) and st.value.func.attr == "broadcast":
+            pairs.append((st, st.targets[0].elts[0].id, st.targets[0].elts[1].id))
+    out = []
+    for bst, a, b in pairs:
+        ops = {a: [], b: []}
+        for st in ast.walk(fn_node):
+            if isinstance(st, ast.Assign) and len(st.targets) == 1 and isinstance(st.targets[0], ast.Name) and \
+                    st.targets[0].id in (a, b) and st.lineno > bst.lineno:
+                nm = st.targets[0].id
+                v = st.value
+                op = None
+                for c in ast.walk(v):
+                    if isinstance(c, ast.Call) and isinstance(c.func, ast.Attribute) and c.func.attr in ROW_REORDER and \
+                            any(isinstance(x, ast.Name) and x.id == nm for x in ast.walk(c.func.value)):
+                        op = c.func.attr
+                    if isinstance(c, ast.Subscript) and isinstance(c.slice, ast.Slice) and c.slice.step is not None and \
+                            const_value(c.slice.step) not in (None, 1) and \
+                            any(isinstance(x, ast.Name) and x.id == nm for x in ast.walk(c.value)):
+                        op = "slice with a step"
+                if op:
+                    ops[nm].append((st, op))
+        for nm, other in ((a, b), (b, a)):
+            for st, op in ops[nm]:
+                if not any(o2 == op for _, o2 in ops[other]):
+                    out.append((st, nm, op))
+    return out
+
+
+def paired_results_rule(ctx, rule, modules):
+    prog = ctx.prog
+    ctx.rule(rule, floor=1, what="the two results of a broadcast stay paired: neither is re-ordered on its own")
+    ex = ast.parse("def f(self, p):\n    a, b = self.broadcast(p)\n    b = b.sort_index()\n    return a.values * b.values\n"
+                   "def g(self, p):\n    a, b = self.broadcast(p)\n    a = a.sort_index()\n    b = b.sort_index()\n    return a.values * b.values\n")
+    if len(unpaired_reorders(ex.body[0])) != 1 or unpaired_reorders(ex.body[1]):
+        raise AnalysisError("%s built-in example not matched" % rule)
+    n = 0
+    for key, fi in sorted(prog.functions.items()):
+        if fi.parent is not None or (modules and fi.module.name not in modules):
+            continue
+        if not any(isinstance(c.func, ast.Attribute) and c.func.attr == "broadcast" for c in calls_in(fi.node)):
+            continue
+        n += 1
+        bad = unpaired_reorders(fi.node)
+        for st, nm, op in bad:
+            ctx.violated(fi, st, "%s: %s re-orders one result of the broadcast (%s) on its own; the other keeps the order of the "
+                         "broadcast, and the two are combined row by row afterwards - every row then gets another row's operand" %
+                         (fi.name, norm_text(st)[:60], op), text="unpaired %s of %s in %s" % (op, nm, fi.name))
+        if not bad:
+            ctx.holds(fi, fi.node, "%s: the results of its broadcast are not re-ordered individually" % fi.name)
+    if n < 1:
+        raise AnalysisError("%s: no consumer of broadcast() found" % rule)
+
+
+def _r9(ctx):
+    """R-C13-9: every calculation built on broadcast() combines its two results row by row; none re-orders one of them alone."""
+    paired_results_rule(ctx, "R-C13-9", None)
 
 
 def _r8(ctx):
